@@ -287,6 +287,112 @@ func httpMalformed(r *hx.Rand, svc string) stream {
 }
 
 
+
+// ---- smtp transactions: every command of the vocabulary, interruptions at every point ----
+// mail k has its own subject and body, so an event that carries bytes of another mail shows
+func mailK(k int) string {
+	return fmt.Sprintf("Subject: mail-%d\r\nFrom: sender%d@example.org\r\n\r\nbody-%d line one\r\nbody-%d line two\r\n", k, k, k, k)
+}
+
+// the steps of one BDAT transaction for mail k: MAIL, RCPT, chunk(s), LAST
+func bdatSteps(r *hx.Rand, k int, chunks int, zeroLast bool) []string {
+	text := mailK(k)
+	steps := []string{fmt.Sprintf("MAIL FROM:<sender%d@example.org>\r\n", k), "RCPT TO:<rcpt@example.net>\r\n"}
+	for c := 0; c < chunks && len(text) > 2; c++ {
+		n := r.Range(1, len(text)-1)
+		if r.Chance(1, 6) {
+			n = 0
+		}
+		steps = append(steps, fmt.Sprintf("BDAT %d\r\n%s", n, text[:n]))
+		text = text[n:]
+	}
+	if zeroLast {
+		steps = append(steps, fmt.Sprintf("BDAT %d\r\n%s", len(text), text), "BDAT 0 LAST\r\n")
+	} else {
+		steps = append(steps, fmt.Sprintf("BDAT %d LAST\r\n%s", len(text), text))
+	}
+	return steps
+}
+
+func dataSteps(k int) []string {
+	return []string{fmt.Sprintf("MAIL FROM:<sender%d@example.org>\r\n", k), "RCPT TO:<rcpt@example.net>\r\n", "DATA\r\n", mailK(k) + ".\r\n"}
+}
+
+// an interruption after step [pos] of transaction 1 (by RSET or by something that is not RSET),
+// then two complete mails (BDAT, DATA or DATA, BDAT) and QUIT
+func smtpInterrupted(r *hx.Rand, pos int, interrupt string, chunks int) stream {
+	s := stream{svc: "smtp", units: []string{r.PickStr([]string{"EHLO client.example.org\r\n", "HELO c\r\n"})}}
+	first := bdatSteps(r, 1, chunks, false)
+	if pos > len(first)-1 {
+		pos = len(first) - 1
+	}
+	s.units = append(s.units, first[:pos]...)
+	s.units = append(s.units, interrupt)
+	if r.Bool() {
+		s.units = append(s.units, bdatSteps(r, 2, r.Range(0, 2), r.Chance(1, 4))...)
+		s.units = append(s.units, dataSteps(3)...)
+	} else {
+		s.units = append(s.units, dataSteps(2)...)
+		s.units = append(s.units, bdatSteps(r, 3, r.Range(0, 2), r.Chance(1, 4))...)
+	}
+	s.units = append(s.units, "QUIT\r\n")
+	return s
+}
+
+func smtpMany(r *hx.Rand) stream {
+	s := stream{svc: "smtp", units: []string{"EHLO many.example.org\r\n"}}
+	n := r.Range(2, 4)
+	for k := 1; k <= n; k++ {
+		if r.Bool() {
+			s.units = append(s.units, bdatSteps(r, k, r.Range(0, 3), r.Chance(1, 4))...)
+		} else {
+			s.units = append(s.units, dataSteps(k)...)
+		}
+		if r.Chance(1, 3) {
+			s.units = append(s.units, r.PickStr([]string{"RSET\r\n", "NOOP\r\n", "HELP\r\n", "VRFY root\r\n", "EXPN list\r\n", "\r\n"}))
+		}
+	}
+	s.units = append(s.units, "QUIT\r\n")
+	return s
+}
+
+// ---- redis: RESP values at the size boundaries, at every argument position ----
+func redisBoundary(r *hx.Rand, arity, pos int, kind string) stream {
+	s := stream{svc: "redis", units: []string{resp("PING")}}
+	words := []string{"SET", "key", "value", "EX", "10"}
+	cmd := fmt.Sprintf("*%d\r\n", arity)
+	for i := 0; i < arity; i++ {
+		if i == pos {
+			switch kind {
+			case "empty-bulk":
+				cmd += "$0\r\n\r\n"
+			case "null-bulk":
+				cmd += "$-1\r\n"
+			case "empty-array":
+				cmd += "*0\r\n"
+			case "null-array":
+				cmd += "*-1\r\n"
+			case "empty-line":
+				cmd += "\r\n"
+			case "one-byte":
+				cmd += "$1\r\nx\r\n"
+			case "bulk-with-space":
+				cmd += "$3\r\na b\r\n"
+			case "integer":
+				cmd += ":0\r\n"
+			case "simple":
+				cmd += "+\r\n"
+			}
+		} else {
+			cmd += fmt.Sprintf("$%d\r\n%s\r\n", len(words[i]), words[i])
+		}
+	}
+	s.units = append(s.units, cmd, resp("GET", "key"), resp("INFO"))
+	return s
+}
+
+var redisKinds = []string{"empty-bulk", "null-bulk", "empty-array", "null-array", "empty-line", "one-byte", "bulk-with-space", "integer", "simple"}
+
 // ---- telnet: plain input (bytes below 128, no ESC, no ^W) ----
 func telnetStream(r *hx.Rand) stream {
 	s := stream{svc: "telnet"}
@@ -609,6 +715,27 @@ func generate(r *hx.Rand, tier string) []Input {
 		ins = append(ins, expand(s, r, true, 0)...)
 	}
 	ins = append(ins, Input{Svc: "dns", Stream: dnsQuery(4660, "example.org"), Mode: "datagram"})
+
+	// smtp: interruption of a BDAT transaction at every point, by RSET and by everything else
+	for pos := 1; pos <= 4; pos++ {
+		for _, it := range []string{"RSET\r\n", "rset\r\n", "NOOP\r\n", "\r\n", "VRFY root\r\n", "HELP\r\n"} {
+			ins = append(ins, expand(smtpInterrupted(r, pos, it, 2), r, false, 6)...)
+		}
+	}
+	for i := 0; i < 4; i++ {
+		ins = append(ins, expand(smtpMany(r), r, false, 10)...)
+	}
+	// redis: boundary values at every argument position, followed by further commands
+	for arity := 1; arity <= 3; arity++ {
+		for pos := 0; pos < arity; pos++ {
+			for _, k := range redisKinds {
+				ins = append(ins, expand(redisBoundary(r, arity, pos, k), r, false, 4)...)
+			}
+		}
+	}
+	ins = append(ins, expand(stream{svc: "redis", units: []string{resp("PING"), "*0\r\n"}}, r, false, 3)...)
+	ins = append(ins, expand(stream{svc: "redis", units: []string{resp("PING"), "*-1\r\n", resp("INFO")}}, r, false, 3)...)
+	ins = append(ins, expand(stream{svc: "redis", units: []string{resp("PING"), "\r\n", "\r\n", resp("INFO")}}, r, false, 3)...)
 
 	perSvc, sample, nudp := 4, 10, 60
 	if tier == "thorough" {
